@@ -205,6 +205,10 @@ pub fn c02_worker(ctx: &mut Ctx) {
             ctx.sample(case_brief(&case));
         }
     }
+    crate::props::run_known(ctx, &mut |case, op, f32_run| {
+        let w = witnesses(case, case.tol(f32_run));
+        c02_check(case, op, f32_run, &w, &mut StructStats::default())
+    });
     ctx.monitor.insert(
         "structure_monitor".into(),
         json!({"holes_checked": st.holes_checked, "exterior_edges_checked": st.polygon_pairs_checked, "witness_reads": st.witness_reads,
@@ -252,6 +256,7 @@ pub fn c04_worker(ctx: &mut Ctx) {
             ctx.sample(case_brief(&case));
         }
     }
+    crate::props::run_known(ctx, &mut |case, op, f32_run| c04_check(case, op, f32_run, &mut ProvStats::default()));
     ctx.monitor.insert(
         "provenance_monitor".into(),
         json!({"result_edges_checked": st.edges_checked, "vertices_bit_identical_to_input": st.vertices_identical, "vertices_at_intersections": st.vertices_intersection,
